@@ -409,6 +409,16 @@ func main() {
 		}
 	}
 	run.CountN("family:random", nRand)
+	// nested-waves family
+	nNest := run.Scale(800, 15000)
+	for i := 0; i < nNest && !pa.enough(); i++ {
+		c := nestedCase(rnd.Fork())
+		pa.record(c, pa.exec(&c), true)
+		if i < 1 {
+			run.Sample(c)
+		}
+	}
+	run.CountN("family:nested-waves", nNest)
 	// WebSocket family
 	nWS := run.Scale(400, 5000)
 	for i := 0; i < nWS && !pa.enough(); i++ {
